@@ -38,6 +38,8 @@ pub struct World<'a> {
     pub twins: Vec<Option<Scanner>>,
     pub iters: Vec<It>,
     pub inputs: Vec<&'static str>,
+    /// attach `verif_state()` of plain iterators to every observed record
+    pub log_state: bool,
 }
 
 fn tok(m: &Match) -> Value {
@@ -56,7 +58,7 @@ pub fn panic_msg(e: Box<dyn std::any::Any + Send>) -> String {
 
 impl<'a> World<'a> {
     pub fn new(syms: &'a [char]) -> Self {
-        World { syms, scanners: vec![], twins: vec![], iters: vec![], inputs: vec![] }
+        World { syms, scanners: vec![], twins: vec![], iters: vec![], inputs: vec![], log_state: false }
     }
 
     pub fn word(&self, w: &Value) -> String {
@@ -68,7 +70,20 @@ impl<'a> World<'a> {
     pub fn exec(&mut self, ev: &Value, cfg_of: &dyn Fn(u64) -> Option<CfgSpec>, want_pos: bool) -> Value {
         let r = catch_unwind(AssertUnwindSafe(|| self.exec_inner(ev, cfg_of, want_pos)));
         match r {
-            Ok(v) => v,
+            Ok(mut v) => {
+                // layer-B binding (MODEL-DRIFT only): the iterator's internal bookkeeping after the call
+                if self.log_state {
+                    let h = if ev["op"] == "newiter" { Some(self.iters.len().wrapping_sub(1)) } else { ev.get("it").and_then(|x| x.as_u64()).map(|x| x as usize - 1) };
+                    if let Some(h) = h {
+                        if let Some(It::Plain(f)) = self.iters.get(h) {
+                            let st = f.verif_state();
+                            v["st"] = json!({"offset": st.offset, "last_position": st.last_position, "last_nl": st.last_char == '\n',
+                                "line_offsets": st.line_offsets});
+                        }
+                    }
+                }
+                v
+            }
             Err(e) => json!({"panic": panic_msg(e)}),
         }
     }
